@@ -1,6 +1,6 @@
 """Developer runner: verify one function and print verdicts."""
 import sys, time
-sys.path.insert(0, "/verif")
+import os; sys.path.insert(0, os.path.dirname(os.path.dirname(os.path.abspath(__file__))))
 from contracts import build_registry
 from pyvc.verify import verify_function
 from pyvc.solve import discharge
